@@ -6,6 +6,7 @@ import (
 	"encoding/hex"
 	"fmt"
 	"reflect"
+	"sort"
 	"strings"
 	"testing"
 
@@ -26,6 +27,7 @@ type n7op struct {
 	nv      string // n | c0.<v> | c1.<v> | b<hex> | m | a
 	k, x, n int
 	mask    []bool
+	raw     any // fromraw: nil | int64 | string | []byte | map[string]any | []any, nested
 }
 
 type n7pos struct {
@@ -38,6 +40,169 @@ type n7pos struct {
 type n7st struct {
 	roots  []Value
 	states []*internal.State
+	// byte arrays of raw inputs the CALLER keeps after Value.FromRaw (must never be reachable from a value)
+	rawBytes [][]byte
+}
+
+// n7encRaw: the raw input in prefix form `n | c0.<v> | c1.<v> | b<hex> | m<n>,k<key>,<raw>,… | a<n>,<raw>,…`; the entries of a map in the
+// order the filled value shows them (res; Go's map iteration order is an input of the model), sorted when there is no result to read
+func n7encRaw(sb *strings.Builder, raw any, res *Value) {
+	switch x := raw.(type) {
+	case nil:
+		sb.WriteString("n")
+	case int64:
+		fmt.Fprintf(sb, "c0.%d", x)
+	case string:
+		fmt.Fprintf(sb, "c1.%s", x)
+	case []byte:
+		sb.WriteString("b" + hex.EncodeToString(x))
+	case map[string]any:
+		var keys []string
+		if res != nil && res.Type() == ValueTypeMap && res.Map().Len() == len(x) {
+			res.Map().Range(func(k string, _ Value) bool { keys = append(keys, k); return true })
+		}
+		ok := len(keys) == len(x)
+		for _, k := range keys {
+			if _, has := x[k]; !has {
+				ok = false
+			}
+		}
+		if !ok {
+			keys = keys[:0]
+			for k := range x {
+				keys = append(keys, k)
+			}
+			sort.Strings(keys)
+			res = nil
+		}
+		fmt.Fprintf(sb, "m%d", len(keys))
+		for _, k := range keys {
+			sb.WriteString("," + k + ",")
+			var sub *Value
+			if res != nil {
+				if v, has := res.Map().Get(k); has {
+					sub = &v
+				}
+			}
+			n7encRaw(sb, x[k], sub)
+		}
+	case []any:
+		fmt.Fprintf(sb, "a%d", len(x))
+		for i, e := range x {
+			sb.WriteString(",")
+			var sub *Value
+			if res != nil && res.Type() == ValueTypeSlice && i < res.Slice().Len() {
+				v := res.Slice().At(i)
+				sub = &v
+			}
+			n7encRaw(sb, e, sub)
+		}
+	}
+}
+
+// n7canon: canonical form (map entries sorted, no capacities) of a raw input / of what the readers show of a value: the direct
+// oracle of from-raw ("the value reads exactly as the raw input")
+func n7canonRaw(sb *strings.Builder, raw any) {
+	switch x := raw.(type) {
+	case nil:
+		sb.WriteString("n")
+	case int64:
+		fmt.Fprintf(sb, "c0.%d", x)
+	case string:
+		fmt.Fprintf(sb, "c1.%s", x)
+	case []byte:
+		sb.WriteString("b" + hex.EncodeToString(x))
+	case map[string]any:
+		keys := make([]string, 0, len(x))
+		for k := range x {
+			keys = append(keys, k)
+		}
+		sort.Strings(keys)
+		sb.WriteString("{")
+		for _, k := range keys {
+			sb.WriteString(k + "=")
+			n7canonRaw(sb, x[k])
+			sb.WriteString(";")
+		}
+		sb.WriteString("}")
+	case []any:
+		sb.WriteString("[")
+		for _, e := range x {
+			n7canonRaw(sb, e)
+			sb.WriteString(";")
+		}
+		sb.WriteString("]")
+	}
+}
+
+func n7canonVal(sb *strings.Builder, v Value) {
+	switch v.Type() {
+	case ValueTypeEmpty:
+		sb.WriteString("n")
+	case ValueTypeInt:
+		fmt.Fprintf(sb, "c0.%d", v.Int())
+	case ValueTypeStr:
+		fmt.Fprintf(sb, "c1.%s", v.Str())
+	case ValueTypeBytes:
+		sb.WriteString("b" + hex.EncodeToString(v.Bytes().AsRaw()))
+	case ValueTypeMap:
+		var keys []string
+		sub := map[string]Value{}
+		v.Map().Range(func(k string, c Value) bool { keys = append(keys, k); sub[k] = c; return true })
+		sort.Strings(keys)
+		sb.WriteString("{")
+		for _, k := range keys {
+			sb.WriteString(k + "=")
+			n7canonVal(sb, sub[k])
+			sb.WriteString(";")
+		}
+		sb.WriteString("}")
+	case ValueTypeSlice:
+		sb.WriteString("[")
+		for i := 0; i < v.Slice().Len(); i++ {
+			n7canonVal(sb, v.Slice().At(i))
+			sb.WriteString(";")
+		}
+		sb.WriteString("]")
+	default:
+		sb.WriteString("?")
+	}
+}
+
+// n7rawViol: set by a from-raw op whose target does not read as the raw input afterwards
+var n7rawViol string
+
+func n7checkRaw(kind string, raw any, v Value) {
+	var a, b strings.Builder
+	n7canonRaw(&a, raw)
+	n7canonVal(&b, v)
+	if a.String() != b.String() {
+		n7rawViol = fmt.Sprintf("sig=C07/nest/%s-value-differs-from-raw-input want=%s got=%s", kind, a.String(), b.String())
+	}
+}
+
+// n7scribble: what a caller that KEEPS the raw input may do to it after FromRaw: none of it may show in the value
+func (st *n7st) n7scribble(raw any) {
+	switch x := raw.(type) {
+	case []byte:
+		for i := range x {
+			x[i] ^= 0xff
+		}
+		if cap(x) > 0 {
+			st.rawBytes = append(st.rawBytes, x)
+		}
+	case map[string]any:
+		for _, e := range x {
+			st.n7scribble(e)
+		}
+		x["k1"] = int64(777)
+		delete(x, "k2")
+	case []any:
+		for i, e := range x {
+			st.n7scribble(e)
+			x[i] = "scribbled"
+		}
+	}
 }
 
 func newN7(h int) *n7st {
@@ -330,6 +495,36 @@ func (st *n7st) apply(o n7op) (line string, panicked bool) {
 			line += fmt.Sprint(c)
 		}()
 		st.at(o.r, o.p).Slice().MoveAndAppendTo(st.at(o.r2, o.p2).Slice())
+	case "fromraw":
+		// the line is written after the call: the order of every map level is read from the result
+		enc := func(res *Value) string {
+			var sb strings.Builder
+			n7encRaw(&sb, o.raw, res)
+			return fmt.Sprintf("op fromraw %d %s %s", o.r, o.p, sb.String())
+		}
+		line = enc(nil)
+		v := st.at(o.r, o.p)
+		_ = v.FromRaw(o.raw)
+		line = enc(&v)
+		n7checkRaw("fromraw", o.raw, v)
+		st.n7scribble(o.raw)
+	case "fromrawlist":
+		// Map.FromRaw / Slice.FromRaw on an EXISTING container (whatever it holds, whatever its capacity)
+		enc := func(res *Value) string {
+			var sb strings.Builder
+			n7encRaw(&sb, o.raw, res)
+			return fmt.Sprintf("op fromrawlist %d %s %s", o.r, o.p, sb.String())
+		}
+		line = enc(nil)
+		v := st.at(o.r, o.p)
+		if m, ok := o.raw.(map[string]any); ok {
+			_ = v.Map().FromRaw(m)
+		} else {
+			_ = v.Slice().FromRaw(o.raw.([]any))
+		}
+		line = enc(&v)
+		n7checkRaw("fromrawlist", o.raw, v)
+		st.n7scribble(o.raw)
 	case "moveroot":
 		line = fmt.Sprintf("op moveroot %d %d", o.r, o.r2)
 		st.roots[o.r].MoveTo(st.roots[o.r2])
@@ -436,6 +631,9 @@ func n7ids(av *otlpcommon.AnyValue, where string, seen map[uintptr]string, depth
 func (st *n7st) aliasing() string {
 	seen := map[uintptr]string{}
 	n7note(seen, &n7pool[:1][0], "raw-input")
+	for i, b := range st.rawBytes {
+		n7note(seen, &b[:1][0], fmt.Sprint("raw-input-bytes-", i))
+	}
 	for r, v := range st.roots {
 		if d := n7ids(v.getOrig(), fmt.Sprint("r", r), seen, 0); d != "" {
 			return d
@@ -477,8 +675,12 @@ func TestVerifC07Nest(t *testing.T) {
 			if broken {
 				return
 			}
+			n7rawViol = ""
 			line, panicked := st.apply(o)
 			out.Linef("%s", line)
+			if n7rawViol != "" {
+				out.Linef("viol %s", n7rawViol)
+			}
 			if d := st.aliasing(); d != "" {
 				// stop the case here: a later CopyTo could recurse forever through aliased data
 				out.Linef("obs aliased")
@@ -508,6 +710,35 @@ func TestVerifC07Nest(t *testing.T) {
 				return fmt.Sprint("c0.", rnd.IntN(50))
 			}
 		}
+		var randRaw func(depth int) any
+		randRaw = func(depth int) any {
+			switch r := rnd.IntN(10); {
+			case r < 3 && depth < 3:
+				m := map[string]any{}
+				for j, n := 0, rnd.IntN(4); j < n; j++ {
+					m[fmt.Sprint("k", 1+rnd.IntN(5))] = randRaw(depth + 1)
+				}
+				return m
+			case r < 5 && depth < 3:
+				a := make([]any, rnd.IntN(4))
+				for j := range a {
+					a[j] = randRaw(depth + 1)
+				}
+				return a
+			case r < 7:
+				b := make([]byte, rnd.IntN(3), 4)
+				for j := range b {
+					b[j] = byte(rnd.IntN(200))
+				}
+				return b
+			case r < 8:
+				return nil
+			case r < 9:
+				return fmt.Sprint(rnd.IntN(50))
+			default:
+				return int64(rnd.IntN(50))
+			}
+		}
 		if c < len(corpus) {
 			for _, o := range corpus[c] {
 				step(o)
@@ -535,6 +766,35 @@ func TestVerifC07Nest(t *testing.T) {
 				switch {
 				case r < 6:
 					o = n7op{kind: "setroot", r: rnd.IntN(h), nv: []string{"m", "a", "m", "a", randNV(0)}[rnd.IntN(5)]}
+				case r < 13 && x.depth+3 <= 2*maxDepth: // Value.FromRaw with a nested raw input at any position; the caller keeps and scribbles on the input
+					raw := randRaw(0)
+					if rnd.IntN(2) == 0 { // mostly structured
+						raw = map[string]any{"k1": randRaw(1), fmt.Sprint("k", 2+rnd.IntN(4)): randRaw(1), "k3": []any{randRaw(2), []byte{1, 2}}}
+					}
+					o = n7op{kind: "fromraw", r: x.r, p: x.path, raw: raw}
+					stat["fromraw_nested"]++
+					nt = true
+					if len(conts) > 0 && rnd.IntN(3) == 0 { // Map.FromRaw / Slice.FromRaw directly on an existing container, one time in four with an EMPTY input
+						p := conts[rnd.IntN(len(conts))]
+						if p.depth+3 <= 2*maxDepth {
+							var lraw any
+							if p.v.Type() == ValueTypeMap {
+								m := map[string]any{}
+								for j, n := 0, rnd.IntN(4); j < n; j++ {
+									m[fmt.Sprint("k", 1+rnd.IntN(5))] = randRaw(1)
+								}
+								lraw = m
+							} else {
+								a := make([]any, rnd.IntN(4))
+								for j := range a {
+									a[j] = randRaw(1)
+								}
+								lraw = a
+							}
+							o = n7op{kind: "fromrawlist", r: p.r, p: p.path, raw: lraw}
+							stat["fromraw_on_existing_container"]++
+						}
+					}
 				case r < 44 && len(conts) > 0:
 					p := conts[rnd.IntN(len(conts))]
 					o = n7op{kind: "setslot", r: p.r, p: p.path, nv: randNV(p.depth + 1)}
